@@ -157,12 +157,21 @@ func (f *fakeOnOff) PullOnOff(ctx context.Context, in *traits.PullOnOffRequest, 
 	return &memberStream[traits.PullOnOffResponse]{ctx: ctx, member: f.members[i]}, nil
 }
 
+// otherStrategy: what the group's other direction (reads for a write, writes for a read) is configured with - a
+// strategy with a different contract, so that using the wrong one shows.
+func otherStrategy(s group.ExecutionStrategy) group.ExecutionStrategy {
+	if s == group.ExecutionStrategyAny || s == group.ExecutionStrategyRace {
+		return group.ExecutionStrategyAll
+	}
+	return group.ExecutionStrategyAny
+}
+
 // traitCalls run one group RPC of a trait group whose members are the case's gated members.
 var traitCalls = map[string]func(ctx context.Context, s group.ExecutionStrategy, members []group.Member) error{
 	"lightpb.Group.GetBrightness": func(ctx context.Context, s group.ExecutionStrategy, members []group.Member) error {
 		req := &traits.GetBrightnessRequest{Name: "the-group"}
 		g := lightpb.NewGroup(&fakeLight{members: members, wantReq: &traits.GetBrightnessRequest{}}, memberNames(len(members))...)
-		g.ReadExecution = s
+		g.ReadExecution, g.WriteExecution = s, otherStrategy(s)
 		_, err := g.GetBrightness(ctx, req)
 		return callerUntouched(err, req, &traits.GetBrightnessRequest{Name: "the-group"})
 	},
@@ -174,14 +183,14 @@ var traitCalls = map[string]func(ctx context.Context, s group.ExecutionStrategy,
 		want := mk()
 		want.Name = ""
 		g := lightpb.NewGroup(&fakeLight{members: members, wantReq: want}, memberNames(len(members))...)
-		g.WriteExecution = s
+		g.WriteExecution, g.ReadExecution = s, otherStrategy(s)
 		_, err := g.UpdateBrightness(ctx, req)
 		return callerUntouched(err, req, mk())
 	},
 	"onoffpb.Group.GetOnOff": func(ctx context.Context, s group.ExecutionStrategy, members []group.Member) error {
 		req := &traits.GetOnOffRequest{Name: "the-group"}
 		g := onoffpb.NewGroup(&fakeOnOff{members: members, wantReq: &traits.GetOnOffRequest{}}, memberNames(len(members))...)
-		g.ReadExecution = s
+		g.ReadExecution, g.WriteExecution = s, otherStrategy(s)
 		_, err := g.GetOnOff(ctx, req)
 		return callerUntouched(err, req, &traits.GetOnOffRequest{Name: "the-group"})
 	},
@@ -193,7 +202,7 @@ var traitCalls = map[string]func(ctx context.Context, s group.ExecutionStrategy,
 		want := mk()
 		want.Name = ""
 		g := onoffpb.NewGroup(&fakeOnOff{members: members, wantReq: want}, memberNames(len(members))...)
-		g.WriteExecution = s
+		g.WriteExecution, g.ReadExecution = s, otherStrategy(s)
 		_, err := g.UpdateOnOff(ctx, req)
 		return callerUntouched(err, req, mk())
 	},
